@@ -30,11 +30,11 @@ func vParseDuration(s string) (time.Duration, error) {
 //
 //verif:harness prop=C07 name=cron_parse_nopanic unwind=40 maxpaths=400000 solver=z3-new
 func VerifCronParseNoPanic() {
-	prefixes := []string{"", "TZ=", "CRON_TZ=", "@", "@every ", "* * * * ", "TZ=UTC "}
+	prefixes := []string{"", "TZ=", "CRON_TZ=", "@", "@every ", "* * * * ", "TZ=UTC ", "TZ=UTC", "CRON_TZ=X", "1 2 3 4 5 ", "*/"}
 	pre := prefixes[zzverif.Choose("prefix", len(prefixes))]
-	maxTail := 2
+	maxTail := 1
 	if zzverif.Thorough() {
-		maxTail = 3
+		maxTail = 2
 	}
 	tl := zzverif.Choose("tail_len", maxTail+1)
 	spec := pre + zzverif.String("tail", tl)
